@@ -260,6 +260,7 @@ func (c *FnCtx) assign(env *Env, lhs ast.Expr, v Val, n ast.Node) {
 		}
 		v = c.assignConv(env, v, pt.Elem())
 		c.safe(st, "nil", not(eq(p.T, "0")), n)
+		c.rawGuard(env, p.T, pt.Elem(), n)
 		c.storeThrough(env, p.T, pt.Elem(), v.T, n)
 	default:
 		c.unsup(n, "assignment target %T", lhs)
